@@ -2,6 +2,8 @@
 
 package sync
 
+import "github.com/at-wat/mqtt-go/internal/verif/vrt"
+
 // The rest of the standard sync API, so that a change of the library that starts using it still
 // builds under the checker.  Everything is built from the scheduler-visible Mutex above.
 
@@ -112,19 +114,48 @@ func (m *Map) Clear() {
 	m.m, m.ks = nil, nil
 }
 
-// Pool never retains anything (which sync.Pool allows): Get returns New() or nil.
+// Pool retains everything that is Put and hands it out again last-in-first-out (what sync.Pool
+// does on one P when no GC intervenes): a value put back while something still refers to it is
+// certain to be handed to the next Get, which is the behaviour that exposes reuse bugs.
 type Pool struct {
 	New func() any
+
+	mu   Mutex
+	free []any
+	w    *vrt.World // the execution the retained values belong to (a package-level Pool outlives executions)
+}
+
+func (p *Pool) sameExecution() {
+	if p.w != vrt.W {
+		p.w, p.free = vrt.W, nil
+	}
 }
 
 func (p *Pool) Get() any {
+	p.mu.Lock()
+	p.sameExecution()
+	if n := len(p.free); n > 0 {
+		v := p.free[n-1]
+		p.free = p.free[:n-1]
+		p.mu.Unlock()
+		return v
+	}
+	p.mu.Unlock()
 	if p.New != nil {
 		return p.New()
 	}
 	return nil
 }
 
-func (p *Pool) Put(any) {}
+func (p *Pool) Put(v any) {
+	if v == nil {
+		return
+	}
+	p.mu.Lock()
+	p.sameExecution()
+	p.free = append(p.free, v)
+	p.mu.Unlock()
+}
 
 func OnceFunc(f func()) func() {
 	var o Once
